@@ -386,6 +386,16 @@ def run_container(P, pid, cspec, tier, seed):
     n = cspec.get("n_quick", 150) if tier == "quick" else cspec.get("n_thorough", 4000)
     rnd = g.random(rng, n, tier, focus=focus)
     batches.append(("random", rnd))
+    if hasattr(g, "scale") and cspec.get("scale", True):
+        # few LONG histories (hundreds to thousands of elements, large capacities and element sizes): what small random
+        # histories never reach — narrowed counters, batch paths, thresholds beyond the 3rd resize
+        try:
+            sc = g.scale(rng, tier)
+        except Exception as e:
+            sc = []
+            out["no_verdict"].append(f"{container}: scale stream failed to generate: {str(e)[:120]}")
+        if sc:
+            batches.append(("scale", sc))
     if cspec.get("alloc_modes"):
         def with_mode(h, mode):
             return [h[0] + f" alloc={mode}"] + h[1:] if h and h[0].startswith("new") and "_default" not in h[0] else None
